@@ -234,13 +234,14 @@ def tc_items():
     fa = cut_item(src, r"^struct FmtArgument\b")
     ca = cut_item(src, r"^    fn contains_arg\(&self")
     pa = cut_item(src, r"^    fn placeholders_by_arg<")
+    bt = cut_item(src, r"^    fn bounded_types<")
     fi = cut_item(src, r"^impl FmtArgument\b")
     ph = []
     for hdr in (r"^enum Parameter\b", r"^impl<'a> From<parsing::Argument<'a>> for Parameter\b", r"^struct Placeholder\b", r"^impl Placeholder\b"):
         ph.append(cut_item(src, hdr))
-    if None in (st, tc, fa, ca, pa, fi) or None in ph:
+    if None in (st, tc, fa, ca, pa, fi, bt) or None in ph:
         return None
-    text = st + "\n\nimpl FmtAttribute {\n" + tc + "\n\n" + ca + "\n\n" + pa + "\n}\n\n" + fa + "\n\n" + fi + "\n\n" + "\n\n".join(ph)
+    text = st + "\n\nimpl FmtAttribute {\n" + tc + "\n\n" + ca + "\n\n" + pa + "\n\n" + bt + "\n}\n\n" + fa + "\n\n" + fi + "\n\n" + "\n\n".join(ph)
     # the cut methods are compiled whatever the cargo features of the real crate
     text = re.sub(r"\n\s*#\[cfg\(feature = \"[a-z_]+\"\)\]", "", text)
     return "\n".join("    " + l if l.strip() else l for l in text.split("\n"))
